@@ -125,6 +125,8 @@ namespace rkcommon {
         while (*s != '"') {
           if (*s == '\\')
             ++s;
+          if (*s == 0)
+            throw std::runtime_error("XML error: unterminated string");
           ++s;
         }
         char *end = s;
@@ -136,6 +138,8 @@ namespace rkcommon {
         while (*s != '\'') {
           if (*s == '\\')
             ++s;
+          if (*s == 0)
+            throw std::runtime_error("XML error: unterminated string");
           ++s;
         }
         char *end = s;
